@@ -8,16 +8,23 @@ StrAlphabet == {0, 97, 195, 169, 226, 130, 172, 240, 128, 255}     \* NUL, 'a', 
 AlphaSeq == <<0, 97, 195, 169, 226, 130, 172, 240, 128, 255>>
 Pow10(n) == LET RECURSIVE P(_) P(i) == IF i = 0 THEN 1 ELSE 10 * P(i - 1) IN P(n)
 StrOf(len, code) == [i \in 1..len |-> AlphaSeq[((code \div Pow10(i - 1)) % 10) + 1]]
+\* longer texts: k letters, one byte x of interest (control characters, DEL, a lone continuation byte), the NUL -
+\* every position of the NUL relative to an 8-byte group, with bytes before it that word-at-a-time tricks confuse with it
+LongStr(k, x) == [i \in 1..k |-> 97 + (i % 26)] \o <<x, 0>>
+StrParamsLong == { [kind |-> kd, len |-> k + 2, code |-> 0, m |-> k + 2, s |-> LongStr(k, x)]
+                   : kd \in StrKinds, k \in 0..17, x \in {1, 2, 127, 128, 255} }
+StrBytes(p) == IF "s" \in DOMAIN p THEN p.s ELSE StrOf(p.len, p.code)
 StrParams == UNION { { [kind |-> k, len |-> n, code |-> cd, m |-> m] : k \in StrKinds, cd \in 0..(Pow10(n) - 1), m \in 0..n } : n \in 0..MaxStr }
+StrParamsAll == StrParams \cup StrParamsLong
 \* the tag declares base + m bytes; the rest of s lies in the padding / runs into the following bytes
 StrTag(p) ==
   LET K == InfoKind(p.kind)
       fixed == IF p.kind = "module" THEN <<1, 0, 0, 0, 2, 0, 0, 0>> ELSE <<>> IN
-  Pad8(U32Bytes(K.id) \o U32Bytes(K.base + p.m) \o fixed \o StrOf(p.len, p.code))
+  Pad8(U32Bytes(K.id) \o U32Bytes(K.base + p.m) \o fixed \o StrBytes(p))
 StrCase(p) ==
   LET body == StrTag(p) \o Pad8(Neighbour)  T == 8 + Len(body) + 8 IN
   [mem |-> U32Bytes(T) \o <<0, 0, 0, 0>> \o body \o EndTagBytes, al |-> 0,
    calls |-> <<[op |-> "load"], [op |-> "str", kind |-> p.kind], [op |-> "get", kind |-> p.kind]>>
              \o (IF p.kind \in {"cmdline", "bootloader"} THEN <<[op |-> "dbg", what |-> p.kind]>> ELSE <<>>),
-   desc |-> [area |-> "str", s |-> StrOf(p.len, p.code)] @@ p]
+   desc |-> [area |-> "str", s |-> StrBytes(p)] @@ p]
 =============================================================================
